@@ -52,6 +52,11 @@ func (g *Generator) parseFields(typeName string) types.Type {
 		}
 
 		ast.Inspect(f, func(n ast.Node) bool {
+			switch n.(type) {
+			case *ast.FuncDecl, *ast.FuncLit:
+				//a struct type declared inside a function is not a package-level type: it gets no constructor or methods
+				return false
+			}
 			if !g.testNode(typeName, n) {
 				return true
 			}
